@@ -27,7 +27,7 @@ from ..tlc import MachineryError, run_tlc
 from ..traces import validate
 
 OBSERVERS = ["FullText", "Units", "UnitDeep", "Images", "ImageBytes", "Tables", "Metadata", "ToJson"]
-RICH_FORMATS = ["docx", "odt", "html", "mhtml", "epub", "rtf", "pptx", "ppt", "odp", "odg", "xlsx", "ods", "xls", "odf", "pdf",
+RICH_FORMATS = ["doc", "docx", "odt", "html", "mhtml", "epub", "rtf", "pptx", "ppt", "odp", "odg", "xlsx", "ods", "xls", "odf", "pdf",
                 "txt", "md", "csv", "tsv", "json"]
 SKIP_FIXTURE_PARTS = ("password", "protected", "encrypted")
 
@@ -246,9 +246,32 @@ def run(ctx):
             dd = rich_doc(f, ctx.seed)
             dd["props"] = dict(dd.get("props") or {}, **extra)
             docs.append({"id": f"gen:{f}-{tag}", "fmt": f, "data": render(dd, f), "type": f})
+    # RTF with several kinds of headers and footers (collections whose order must not depend on the hash seed)
+    from ..docmodel import word
+    rr = rich_doc("rtf", ctx.seed)
+    rr["header"], rr["footer"] = [["r", 41]], [["r", 42]]
+    rr["hf_extra"] = [("headerf", [["r", 43]]), ("headerl", [["r", 44]]), ("headerr", [["r", 45]]),
+                      ("footerf", [["r", 46]]), ("footerl", [["r", 47]]), ("footerr", [["r", 48]])]
+    docs.append({"id": "gen:rtf-headers", "fmt": "rtf", "data": render(rr, "rtf"), "type": "rtf"})
+    # sloppy table markup (cells without a row, rows without a table): parser state that must not outlive the parse
+    sloppy = ("<html><head><title>t</title></head><body><p>" + word(1) + "</p><table><td>" + word(2) + "</td><td>" + word(3)
+              + "</td></table><tr><td>" + word(4) + "</td></tr><table><tr><td>" + word(5) + "</td></tr></table></body></html>")
+    docs.append({"id": "gen:html-sloppy", "fmt": "html", "data": sloppy.encode(), "type": "html"})
+    from ..writers import web as _web
+    docs.append({"id": "gen:epub-sloppy", "fmt": "epub", "type": "epub",
+                 "data": _web.write_epub({"chapters": [{"raw_xhtml": sloppy}], "props": {"title": "S"}}, opf_dir="OEBPS")})
+    # mailbox / message with several recipients per header (address collections must keep their order)
+    msg = ("From: A One <a1@example.invalid>\r\nTo: B Two <b2@example.invalid>, c3@example.invalid, \"D, Four\" <d4@example.invalid>,"
+           " e5@example.invalid\r\nCc: f6@example.invalid, G Seven <g7@example.invalid>, h8@example.invalid\r\n"
+           "Reply-To: r1@example.invalid, r2@example.invalid, r3@example.invalid\r\nSubject: " + word(1) + "\r\n"
+           "Date: Tue, 02 Jan 2024 03:04:05 +0000\r\nMessage-ID: <m1@example.invalid>\r\nMIME-Version: 1.0\r\n"
+           "Content-Type: text/plain; charset=utf-8\r\n\r\n" + word(2) + " body\r\n")
+    docs.append({"id": "gen:eml-recipients", "fmt": "eml", "data": msg.encode(), "type": "eml"})
+    mb = "".join("From sender@example.invalid Tue Jan  2 03:04:05 2024\n" + msg.replace("\r\n", "\n").replace("m1@", f"m{k}@") + "\n"
+                 for k in (1, 2))
+    docs.append({"id": "gen:mbox-recipients", "fmt": "mbox", "data": mb.encode(), "type": "mbox"})
     # a 7z archive (own minimal writer of the C10 machinery): the library reads it through its own 7z reader
     from ..c10_sevenz import write_7z
-    from ..docmodel import word
     sz, _ = write_7z([{"name": "a.txt", "kind": "file", "data": (word(1) + " first\n").encode()},
                       {"name": "d/b.md", "kind": "file", "data": ("# " + word(2) + "\n").encode()},
                       {"name": "c.csv", "kind": "file", "data": (word(3) + "," + word(4) + "\n").encode()}], [[0, 1], [2]])
